@@ -16,7 +16,9 @@ EXPLANATION = (
     'status, only for its own child; the sentinel has a closing finaliser (R-EXITCODE); the worker is started with '
     "`-m` of this copy's module (R-VENDOR). Also decided: the initializer is tested by identity only, never by truth "
     'value (R-INIT-TRUTH); get_context resolves `method or <default> or "loky"` on every (requested, default) pair '
-    '(R-CTX-NAME). Not decided: the descriptor table of a live worker.'
+    '(R-CTX-NAME); the initializer keeps its own initargs through the chaining helpers of loky.initializers: pairs enter in order, '
+    'are filtered together, re-assembled at the same index, zipped in step by the compound initializer, provider answers are '
+    '(callable, tuple of matching arity) (R-INIT-CHAIN). Not decided: the descriptor table of a live worker.'
 )
 
 
@@ -32,4 +34,5 @@ def run(e, R, tier):
         P.r_vendor,
         P.r_init_truth,
         P.r_ctx_name,
+        P.r_init_chain,
     ])
